@@ -533,6 +533,94 @@ bool exec_basic(ExecCtx &c) {
       probe(PR_MSG_RECV);
       return true;
     }
+    case OP_X_PIN: {
+      if (!c.pins || c.task < 0) return true;
+      if (c.pins->size() >= 12) {
+        sim::Exempt e;
+        c.pins->erase(c.pins->begin());
+      }
+      // a: object class and slot, b: accessor, c: index
+      uint32_t cls = op.a % 3;
+      const T *ptr = nullptr;
+      int slot = -1;
+      uint32_t via = op.b % 4;
+      if (cls == 0) {
+        // grid: private + shared
+        size_t n1 = P.g.size(), n = n1 + c.w.shared.g.size();
+        const Grid *g = nullptr;
+        for (size_t k = 0; k < n && !g; k++) {
+          size_t i = (op.d + k) % n;
+          const std::optional<Grid> &o = i < n1 ? P.g[i] : c.w.shared.g[i - n1];
+          if (o) {
+            g = &*o;
+            slot = i < n1 ? SLOT_G0 + (int)i : -1;
+          }
+        }
+        if (!g) return true;
+        libcall(out, [&] {
+          size_t sz = g->size();
+          switch (via) {
+            case 0: ptr = &g->front(); break;
+            case 1: ptr = &g->back(); break;
+            case 2: ptr = &g->at(op.c % sz); break;
+            default: ptr = &*(g->begin() + (long)(op.c % sz)); break;
+          }
+        });
+      } else if (cls == 1) {
+        size_t n1 = P.s.size(), n = n1 + c.w.shared.s.size();
+        const Support *sp = nullptr;
+        for (size_t k = 0; k < n && !sp; k++) {
+          size_t i = (op.d + k) % n;
+          const std::optional<Support> &o = i < n1 ? P.s[i] : c.w.shared.s[i - n1];
+          if (o && !o->empty()) {
+            sp = &*o;
+            slot = i < n1 ? SLOT_S0 + (int)i : -1;
+          }
+        }
+        if (!sp) return true;
+        libcall(out, [&] {
+          size_t sz = sp->size();
+          switch (via) {
+            case 0: ptr = &sp->front(); break;
+            case 1: ptr = &sp->back(); break;
+            case 2: ptr = &sp->at(op.c % sz); break;
+            default: ptr = &(*sp)[op.c % sz]; break;
+          }
+        });
+      } else {
+        size_t n1 = P.p.size(), n = n1 + c.w.shared.p.size();
+        const SpV *sv = nullptr;
+        for (size_t k = 0; k < n && !sv; k++) {
+          size_t i = (op.d + k) % n;
+          const std::optional<SpV> &o = i < n1 ? P.p[i] : c.w.shared.p[i - n1];
+          bool nonempty = o && std::visit([](const auto &x) { sim::Exempt e; return !x.getSupport().empty(); }, *o);
+          if (nonempty) {
+            sv = &*o;
+            slot = i < n1 ? SLOT_P0 + (int)i : -1;
+          }
+        }
+        if (!sv) return true;
+        std::visit(
+            [&](const auto &x) {
+              libcall(out, [&] {
+                switch (via) {
+                  case 0: ptr = &x.front(); break;
+                  case 1: ptr = &x.back(); break;
+                  case 2: ptr = &x.getSupport().getGrid().front(); break;
+                  default: ptr = &*x.getSupport().begin(); break;
+                }
+              });
+            },
+            *sv);
+      }
+      if (ptr && out.status == ST_OK) {
+        sim::Exempt e;
+        c.pins->push_back(Pin{slot, ptr, ptr->bits(), (int)(cls * 4 + via)});
+        out.obs = hmix(out.obs, ptr->bits());
+        probe(PR_PIN_TAKEN);
+      }
+      return true;
+    }
     default:
       return false;
   }
